@@ -128,3 +128,7 @@ func RingAreaSigned(r []P2) float64 {
 	}
 	return s / 2
 }
+
+// Off reports that a difference is NOT within the tolerance. Unlike `math.Abs(d) > tol` it is true for a NaN
+// difference, so a NaN result can never pass a numeric comparison silently.
+func Off(d, tol float64) bool { return !(math.Abs(d) <= tol) }
